@@ -285,4 +285,17 @@ CHECKS = {
                  extra=OP_EXTRA, instrument=OP_INSTR, gomaxprocs=1),
         ],
     },
+    "C10": {
+        "level": "model_checking",
+        "engine": "E2",
+        "technique": "exhaustive enumeration of configuration option vectors (JSON and YAML) vs a reference effective configuration; enumeration of single-fault mutations; exhaustive short byte strings, prefixes and substitutions for no-crash",
+        "level_text": "Part a: the option product of a kubernetes binding (16 options, 829,440 vectors; thorough: all, quick: every 37th in mixed-radix order) rendered as JSON and as YAML and loaded with the real LoadAndValidate: both load, the two effective configurations are equal and equal the reference computed from the vector (binding name, queue main, allowFailure false, event types with executeHookOnEvent over watchEvent, executeHookOnSynchronization / keepFullObjectsInMemory true, waitForSynchronization only off for named queues, selectors, group -> snapshots merge); plus multi-binding shapes for declared order, includeSnapshotsFrom and group merge across kubernetes / schedule / validating / mutating / conversion bindings and settings. Part b: 40 single-fault mutations of a full configuration in the classes the statement names (unknown field at 18 nesting levels, bad crontab, unknown / ambiguous include, invalid label / field selectors incl. admission bindings, unsupported or mistyped version), as JSON and YAML: all rejected, none panics. Part c: all byte strings up to length 3 over a 14-symbol structural alphabet, every prefix and every single-byte substitution of 6 valid documents: LoadAndValidate returns (config or error) and never panics.",
+        "level_note": "Trusted: the reference in the harness, sigs.k8s.io/yaml for rendering the YAML form. Part c is exhaustive only inside its bound; 'all byte strings' is infinite.",
+        "rule": "product / mutation / byte-string enumeration; non-trivial = non-default vector / every mutation / non-empty input; distinct = distinct effective configuration / mutation / accept-reject outcome",
+        "parts": [
+            part("c10a", "pkg/hook/config", "TestVerifC10a", ["zz_verif_c10_test.go"], shards={"quick": 16, "thorough": 16}),
+            part("c10b", "pkg/hook/config", "TestVerifC10b", ["zz_verif_c10_test.go"], shards={"quick": 4, "thorough": 4}),
+            part("c10c", "pkg/hook/config", "TestVerifC10c", ["zz_verif_c10_test.go"], shards={"quick": 16, "thorough": 16}),
+        ],
+    },
 }
